@@ -191,7 +191,14 @@ func serialModel(c *Case, relax int) porcupine.Model {
 							}
 							return false, state // reported presence of a key the model does not have
 						}
-						m.insert(sp.Name, KV{op.Key, op.Val}) // reported absence and inserted
+						// reported absence and inserted: the transaction's own item goes in front of the equal
+						// key it did not see, so that its later calls on that key (remove, update) hit its own item
+						a := m[sp.Name]
+						pos := sort.Search(len(a), func(i int) bool { return a[i].K >= op.Key })
+						a = append(a, KV{})
+						copy(a[pos+1:], a[pos:])
+						a[pos] = KV{op.Key, op.Val}
+						m[sp.Name] = a
 					default:
 						return false, state
 					}
@@ -285,6 +292,9 @@ func oracleC02(c *Case, res *Result) []Violation {
 			tag += "/outofnode" // values kept outside the node: written by every attempt before the conflict checks
 			break
 		}
+	}
+	if len(c.Stores) > 1 {
+		tag += "/multistore"
 	}
 	var ops []porcupine.Operation
 	id := 0
